@@ -215,7 +215,7 @@ Definition new_task nid prev : task := Build_task nid SNone prev None false [] 0
 (* Process::create_task + Runtime::push *)
 Definition sched e nid prev : eng :=
   let tid := length (tasks e) in
-  let e1 := with_rows (with_tasks e (tasks e ++ [new_task nid (Some prev)])) (rows e ++ [None]) in
+  let e1 := with_rows (with_tasks e (tasks e ++ [new_task nid (Some prev)])) (rows e ++ [Some (new_task nid (Some prev))]) in
   add_ev (with_queue e1 (queue e1 ++ [tid])) (ENew tid nid (Some prev) (clock e)).
 
 (* Task::parent : climb the prev links until a task of a lower level *)
@@ -404,6 +404,9 @@ Definition run_stmt_hooks e (t : nat) (ev : levt) (i : nat) : eng :=
 (* cache.rs push_task_pri: the task row is the task as it is now; the process row gets the
    process state *)
 Definition upsert e i : eng := with_prow (with_rows e (upd (rows e) i (Some (tk e i)))) (Some (pstate e)).
+(* Process::persist: every task row is rewritten from the live task, the process row from the
+   process (at the end of every scheduler step, accepted client action and tick) *)
+Definition persist e : eng := with_prow (with_rows e (map Some (tasks e))) (Some (pstate e)).
 
 (* ---------- emit_task (context.rs) + on_task (runtime.rs) + hooks (task.rs run_hooks),
               emit_error, next, review : mutually recursive through catches and resumes ---------- *)
@@ -647,17 +650,18 @@ Definition fuel_of e := 16 + 8 * length (tasks e).
 
 (* Scheduler::next : pop; a task closed while it waited is dropped; exec; on Err mark the task
    error and bubble *)
+Definition exec_or_fail (e0 : eng) (i : nat) : eng :=
+  let e1 := exec (fuel_of e0) [] e0 i in
+  if exn e1 then
+    let e2 := with_exn e1 false in
+    emit_error (fuel_of e2) (set_err 21 e2 i 0) i
+  else e1.
 Definition step_queue (e : eng) : eng :=
   match queue e with
   | [] => e
   | i :: q =>
       let e0 := add_ev (with_queue e q) (EPop i) in
-      if is_completed (st e0 i) then e0 else
-      let e1 := exec (fuel_of e0) [] e0 i in
-      if exn e1 then
-        let e2 := with_exn e1 false in
-        emit_error (fuel_of e2) (set_err 21 e2 i 0) i
-      else e1
+      if is_completed (st e0 i) then e0 else persist (exec_or_fail e0 i)
   end.
 (* the schedule: run the k-th queued signal next *)
 Definition sched_pick (e : eng) (k : nat) : eng :=
@@ -683,12 +687,12 @@ Definition do_tick (e : eng) (adv : Z) : eng :=
   if is (pstate e) SRunning then
     let ts := filter (fun t => negb (Nat.eqb (length (t_timeouts (tk e t))) 0)) (seq 0 (length (tasks e))) in
     let sorted := sort_by (fun t => t_start (tk e t)) ts in
-    fold_left (fun ee t =>
+    persist (fold_left (fun ee t =>
       fold_left (fun ee2 (r : nat * Z) =>
         if rule_fires (clock ee2) (t_start (tk ee2 t)) (t_tmo_done (tk ee2 t)) (is_completed (st ee2 t)) r then
           sched_nodes (add_tmo_done (add_ev ee2 (EFire t (fst r) (clock ee2) (t_start (tk ee2 t)) (snd r))) t (fst r))
                       (children_in (tnode ee2 t) (OTimeout (fst r))) t
-        else ee2) (t_timeouts (tk ee t)) ee) sorted e
+        else ee2) (t_timeouts (tk ee t)) ee) sorted e)
   else e.
 
 (* ---------- client actions (process.rs do_action, task.rs update, context.rs *_task) ---------- *)
@@ -776,7 +780,7 @@ Fixpoint undo_children (f : nat) e (l : list nat) : eng :=
   end.
 
 Definition ret_err e := add_ev e (EAct false).
-Definition ret_ok e := add_ev e (EAct true).
+Definition ret_ok e := add_ev (persist e) (EAct true).
 
 (* Process::do_action up to Task::update's own guards: every check that can reject the action
    without having touched anything (the checks are pure, so their order is not observable) *)
@@ -872,7 +876,7 @@ Definition perform (e : eng) (i : nat) (a : action) (cv : vars) : eng :=
                                           let ee1 := undo_children (S (length (tasks ee))) ee (children ee nx) in
                                           (emit (fuel_of ee1) (set_state 38 ee1 nx SCompleted) nx, false))
                                       nexts (e1, false) in
-                if failed then ret_err e2 else ret_ok (redo e2 s)
+                if failed then ret_err (persist e2) else ret_ok (redo e2 s)
             end
       end
   end.
@@ -885,7 +889,7 @@ Definition do_action (e : eng) (i : nat) (a : action) (opts : vars) : eng :=
 
 (* Process::start : the process runs, its row is written, the root task is queued *)
 Definition start (ns : list node) (clock0 : Z) : eng :=
-  add_ev {| nodes := ns; tasks := [new_task 0 None]; rows := [None]; queue := [0]; trace := [];
+  add_ev {| nodes := ns; tasks := [new_task 0 None]; rows := [Some (new_task 0 None)]; queue := [0]; trace := [];
             oof := false; exn := false; pstate := SRunning; prow := Some SRunning; clock := clock0 |} (ENew 0 0 None clock0).
 
 (* ---------- operations ---------- *)
